@@ -609,15 +609,15 @@ class FrequencyResponseData(LTI):
     # TODO: Division of MIMO transfer function objects is not written yet.
     def __rtruediv__(self, other):
         """Right divide two LTI objects."""
+        if (self.ninputs > 1 or self.noutputs > 1):
+            # FRD.__rtruediv__ is currently only implemented for SISO systems
+            return NotImplemented
+
         if isinstance(other, (int, float, complex, np.number)):
             return FRD(other / self.frdata, self.omega,
                        smooth=(self._ifunc is not None))
         else:
             other = _convert_to_frd(other, omega=self.omega)
-
-        if (self.ninputs > 1 or self.noutputs > 1):
-            # FRD.__rtruediv__ is currently only implemented for SISO systems
-            return NotImplemented
 
         return other / self
 
@@ -625,7 +625,9 @@ class FrequencyResponseData(LTI):
         if not type(other) == int:
             raise ValueError("Exponent must be an integer")
         if other == 0:
-            return FRD(ones(self.frdata.shape), self.omega,
+            unity = eye(self.noutputs, self.ninputs)[:, :, np.newaxis] * \
+                ones(len(self.omega))
+            return FRD(unity, self.omega,
                        smooth=(self._ifunc is not None))  # unity
         if other > 0:
             return self * (self**(other-1))
